@@ -15,7 +15,7 @@ pub struct LspSession {
     tag: String,
     pub opened: BTreeSet<String>,
     pub notifications_sent: u64,
-    version: i64,
+    doc_versions: std::collections::BTreeMap<String, i64>,
     pub last_touched: Option<String>,
 }
 
@@ -33,18 +33,18 @@ impl LspSession {
             c.shutdown();
             return None;
         }
-        Some(LspSession { tw, c, sched, tag, opened: BTreeSet::new(), notifications_sent: 0, version: 1, last_touched: None })
+        Some(LspSession { tw, c, sched, tag, opened: BTreeSet::new(), notifications_sent: 0, doc_versions: Default::default(), last_touched: None })
     }
 
     /// didOpen (first time) or didChange of `name` with `text`; waits until the server is idle and
     /// everything it emitted has been received. false = inconclusive (timeout).
     pub fn touch(&mut self, name: &str, text: &str) -> bool {
         let uri = self.tw.uri(name);
-        self.version += 1;
+        let v = self.next_version(name);
         if self.opened.insert(name.to_string()) {
             self.c.did_open(&uri, text);
         } else {
-            self.c.did_change(&uri, self.version, text);
+            self.c.did_change(&uri, v, text);
         }
         self.notifications_sent += 1;
         self.last_touched = Some(name.to_string());
@@ -77,14 +77,22 @@ impl LspSession {
     /// like `touch` but without waiting
     pub fn touch_async(&mut self, name: &str, text: &str) {
         let uri = self.tw.uri(name);
-        self.version += 1;
+        let v = self.next_version(name);
         if self.opened.insert(name.to_string()) {
             self.c.did_open(&uri, text);
         } else {
-            self.c.did_change(&uri, self.version, text);
+            self.c.did_change(&uri, v, text);
         }
         self.notifications_sent += 1;
         self.last_touched = Some(name.to_string());
+    }
+
+    /// document versions as an editor counts them: per document, 1 at didOpen, +1 with every change,
+    /// starting over when the document is opened again after a close
+    fn next_version(&mut self, name: &str) -> i64 {
+        let v = if self.opened.contains(name) { self.doc_versions.get(name).copied().unwrap_or(1) + 1 } else { 1 };
+        self.doc_versions.insert(name.to_string(), v);
+        v
     }
 
     pub fn settle(&mut self) -> bool {
